@@ -20,6 +20,8 @@ class SpecView:
         self._ast = {}
         self._allowed = {}
         self._excl = {}
+        self._cok = {}
+        self._canon = {}
 
     # -- content -----------------------------------------------------------------
     def ast(self, tname):
@@ -36,6 +38,14 @@ class SpecView:
         return "".join(self.letter[t] for t in type_names)
 
     def content_ok(self, tname, child_types):
+        key = (tname, tuple(child_types))
+        r = self._cok.get(key)
+        if r is None:
+            r = self._content_ok(tname, child_types)
+            self._cok[key] = r
+        return r
+
+    def _content_ok(self, tname, child_types):
         for t in child_types:
             if t not in self.letter:
                 return False
@@ -106,6 +116,18 @@ class SpecView:
 
     def canonical(self, fm):
         """fm: tuple of (mark type name, frozen attrs)."""
+        if not fm:
+            return True
+        try:
+            r = self._canon.get(fm)
+        except TypeError:
+            return self._canonical(fm)
+        if r is None:
+            r = self._canonical(fm)
+            self._canon[fm] = r
+        return r
+
+    def _canonical(self, fm):
         for i, (n, _a) in enumerate(fm):
             if n not in self.marks:
                 return False
